@@ -206,13 +206,16 @@ def check_ext(spec, ctx):
             return Outcome(False, msg="evaluation %d: bias energy %r, expected %r (bias must act on the %s coordinate) %s" %
                            (k, Eb, m["Eb"], "actual" if spec["bias"] == "walls" else "extended", tag), sig="bias_target", case_text=case)
         Ecv = s["E"] - Eb
-        if abs(Ecv - m["Ecv"]) > 1e-9 * max(1.0, abs(m["Ecv"])):
+        if abs(Ecv - m["Ecv"]) > 1e-8 * max(1.0, abs(m["Ecv"])):
             return Outcome(False, msg="evaluation %d: kinetic+coupling energy %r, reference %r %s" % (k, Ecv, m["Ecv"], tag), sig="energy", case_text=case)
         fz = 0.0
         for slot, aid in enumerate(s["ids"]):
             if aid == 0:
                 fz += s["F"][slot][2]
-        if abs(fz - m["fz"]) > 1e-9 * max(1.0, abs(m["fz"])):
+        # the spring force is a difference of nearly equal numbers times a large constant: rounding of the extended value
+        # (compared at 1e-9 above) is amplified by k = k_B T / fluctuation^2
+        kspring = KB * spec["temp"] / spec["fluct"] ** 2
+        if abs(fz - m["fz"]) > 1e-9 * max(1.0, abs(m["fz"])) + 4e-9 * kspring * max(1.0, abs(m["x"])):
             return Outcome(False, msg="evaluation %d: force on the atom %r; spring (+ bypassing bias) gives %r %s" % (k, fz, m["fz"], tag),
                            sig="atom_force", case_text=case)
     cls = (spec["bias"], "per" if spec["periodic"] else "", "refl:" + spec["refl"], "lang" if spec["damp"] > 0 else "nve",
